@@ -252,6 +252,9 @@ class VariableSizedTiles:
 
     def __getitem__(self, idx: Union[SomeIndex2d, ROI]) -> Tuple[slice, slice]:
         idx = norm_slice_2d(idx, self.shape.yx)
+        for a, i in zip(self._offsets, idx):
+            if not 0 <= i.start <= i.stop < len(a):
+                raise IndexError(f"Index {idx} is out of range")
         y, x = (
             slice(int(a[i.start]), int(a[i.stop])) for a, i in zip(self._offsets, idx)
         )
